@@ -66,7 +66,12 @@ def stage_pairs(ctx):
     for a, b in pairs[ctx.shard::ctx.nshards]:
         case = {"t": "pair", "a": a, "b": b}
         got = ci.get_num_children(a, b)
-        want = refids.nchildren(a, b) if b >= a else 0
+        if b < a:
+            # no descendants exist at a coarser level and cell_to_children raises there: the property makes no claim
+            # about the value of the count rule for such pairs (uncompact's refusal is C10's business)
+            col.bulk(1, 0, cls="pair_reversed_no_claim", sample=case)
+            continue
+        want = refids.nchildren(a, b)
         if got != want:
             raise Violation("num_children_rule", case, observed=got, expected=want)
         nt = a < 2 <= b
